@@ -75,8 +75,9 @@ def shrink_cases(prop, cases, use_pinned):
     out = []
     for c in cases[:3]:
         items = c['op'].split(' ')
-        if len(items) == 3 and items[2].startswith('b') and len(items[2]) > 9:
-            best = bytes.fromhex(items[2][1:])
+        if len(items) == 3 and items[2].startswith('b') and len(items[2]) > 9 and not c.get('meta', {}).get('gen'):
+            try: best = bytes.fromhex(items[2][1:])
+            except ValueError: out.append(c); continue
             budget = 60
             changed = True
             while changed and budget > 0:
